@@ -10,11 +10,12 @@
                          array (tracked counts untouched); full = with tracked counts
      valid_tsb ts        boolean validity of (edges, insertion/removal index, breakpoints):
                          evaluated to true on every correspondence case of every run
-     finite_op           every op except seek(NaN) (Python level or low level)
-     abs t               (index, left, right, parent array, edge array, num_edges)
+     abs t               (index, left, right, parent array, edge array, num_edges, site list)
      fresh_ops k         [] for k = -1, [seek_index k] otherwise: "a fresh Tree moved there"
-   Non-vacuity: Example ex_ts_valid / ex_ops_finite / ex_run in C06/Theorems.v (a 4-tree
-   sequence and a 15-op sequence meeting every hypothesis below), ex_iter_run (IterProofs.v). *)
+   The model follows /repo HEAD with the repairs of F4 (eee123e), F14 (9583b70), F15 (fcbdf2e);
+   the op lists are UNRESTRICTED (seek(NaN) included).
+   Non-vacuity: Example ex_ts_valid / ex_run in C06/Theorems.v (a 4-tree sequence and a 17-op
+   sequence), ex_sites_after_clear, ex_tracked_after_clear, ex_seek_nan, ex_iter_run. *)
 From Coq Require Import List ZArith.
 From TskVerif Require Import Base.Common C06.Model C06.Facts C06.BasicProofs C06.ListFacts C06.Valid
   C06.CursorProofs C06.NavProofs C06.Theorems C06.IterProofs.
@@ -25,24 +26,25 @@ Open Scope Z_scope.
    characterisation of the current tree [a, b): FORWARD in.stop = #{left <= a},
    out.stop = #{right <= a}; REVERSE out.stop = #{left < b} - 1, in.stop = #{right < b} - 1.
    (FULL statement; also: the run never reads out of bounds and never runs out of fuel.) *)
-Theorem cursor_invariant : forall ts ops, valid_tsb ts = true -> Forall finite_op ops ->
+Theorem cursor_invariant : forall ts ops, valid_tsb ts = true ->
   exists st outs, run core ts ops = Ok (st, outs) /\ cursor_ok ts (fst st) /\ cursor_ok ts (snd st).
 Proof. exact cursor_invariant_proof. Qed.
 
-(* (b1) After any finite op sequence index / interval / parent array / edge array / num_edges
-   are those the rows define for the current index (parent_at / edges_at / num_edges_at = the
-   SPEC), or those of the null tree. *)
-Theorem nav_state_is_spec : forall ts ops, valid_tsb ts = true -> Forall finite_op ops ->
+(* (b1) After any finite op sequence index / interval / parent array / edge array / num_edges /
+   site list are those the rows define for the current index (parent_at / edges_at /
+   num_edges_at / sites_at = the SPEC), or those of the null tree (no sites). *)
+Theorem nav_state_is_spec : forall ts ops, valid_tsb ts = true ->
   exists st outs, run core ts ops = Ok (st, outs) /\ spec_state ts (fst st) /\ spec_state ts (snd st).
 Proof. exact nav_state_is_spec_proof. Qed.
 
 (* (b2) ... hence identical to a fresh Tree moved directly to the same index.
-   This is the builder task's statement (b) in full.  PARTIAL only with respect to DESIGN's
-   wider [abs]: here abs = index, interval, parent array, edge array, num_edges.  Full
-   statement: the same with abs extended by children sets, sample counts, roots, sample lists
-   (tied by correspondence + oracle only; C01 owns those views) and by sites / tracked
-   counts — for which it is FALSE: nav_sites_refuted, nav_tracked_refuted. *)
-Theorem nav_canonical_partial : forall ts ops, valid_tsb ts = true -> Forall finite_op ops ->
+   This is the builder task's statement (b) in full, extended to num_edges and the site list.
+   PARTIAL only with respect to DESIGN's wider [abs]: children sets, sample counts, roots,
+   sample lists (C01 owns those views) and the tracked-sample counts (mode [full]: canonical
+   since fix fcbdf2e on every generated case, see ex_tracked_after_clear, but not proved — the
+   ancestor walk of insert/remove_edge needs acyclicity, which this model does not carry) are
+   tied by correspondence + oracle only. *)
+Theorem nav_canonical_partial : forall ts ops, valid_tsb ts = true ->
   exists st outs, run core ts ops = Ok (st, outs) /\
   exists fr outs', run core ts (fresh_ops (t_index (fst st))) = Ok (fr, outs') /\
                    abs (fst st) = abs (fst fr).
@@ -58,7 +60,7 @@ Proof. exact next_prev_ret. Qed.
 
 (* (c2) ... and in every reachable state the call succeeds and moves to index+1 / index-1,
    wrapping through the null state (nxt / prv). *)
-Theorem next_prev_index : forall ts ops o, valid_tsb ts = true -> Forall finite_op ops ->
+Theorem next_prev_index : forall ts ops o, valid_tsb ts = true ->
   o = OpNext \/ o = OpPrev ->
   exists st outs st' r, run core ts ops = Ok (st, outs) /\ py_step core ts st o = Ok (st', r) /\
     t_index (fst st') = (match o with OpNext => nxt ts | _ => prv ts end) (t_index (fst st)) /\
@@ -67,7 +69,7 @@ Proof. exact next_prev_index_proof. Qed.
 
 (* (d) In every reachable state seek(x) with 0 <= x < L returns None, leaves the other tree
    alone and lands on the tree whose interval contains x. *)
-Theorem seek_lands : forall ts ops v, valid_tsb ts = true -> Forall finite_op ops -> 0 <= v < ts_L ts ->
+Theorem seek_lands : forall ts ops v, valid_tsb ts = true -> 0 <= v < ts_L ts ->
   exists st outs st', run core ts ops = Ok (st, outs) /\
     py_step core ts st (OpSeek (Fin v)) = Ok (st', RET_NONE) /\
     t_left (fst st') <= v < t_right (fst st') /\ snd st' = snd st.
@@ -75,7 +77,7 @@ Proof. exact seek_lands_proof. Qed.
 
 (* (e) tsk_tree_seek terminates: every fuel >= num_trees + 1 (loop tests of
    tsk_tree_seek_linear) gives the same Ok result in every reachable state. *)
-Theorem seek_linear_terminates : forall ts ops v, valid_tsb ts = true -> Forall finite_op ops ->
+Theorem seek_linear_terminates : forall ts ops v, valid_tsb ts = true ->
   0 <= v < ts_L ts ->
   exists st outs t', run core ts ops = Ok (st, outs) /\
     forall fuel, Z.of_nat fuel >= num_trees ts + 1 -> tree_seek fuel core ts (fst st) (Fin v) = Ok t'.
@@ -97,37 +99,19 @@ Theorem iter_reversed : forall ts n, valid_tsb ts = true ->
               (Z.of_nat n >= num_trees ts + 1 -> it_more it' = false /\ t_index (it_tree it') = -1).
 Proof. exact iter_reverse_proof. Qed.
 
-(* F4 (general form): in every reachable non-null state Tree.seek(NaN) passes both guards and
-   tsk_tree_seek_linear exhausts every fuel. *)
-Theorem seek_nan_diverges : forall ts ops, valid_tsb ts = true -> Forall finite_op ops ->
-  exists st outs, run core ts ops = Ok (st, outs) /\
-    (t_index (fst st) <> -1 -> forall fuel, py_step_fuel fuel core ts st (OpSeek NaN) = Fuel).
-Proof. exact seek_nan_diverges_proof. Qed.
+(* (g) seek is total on EVERY argument, NaN included (fix eee123e): Tree.seek(x) either lands
+   on the tree containing x, or raises ValueError and leaves both trees untouched; the
+   low-level call raises LibraryError instead. *)
+Theorem seek_total : forall ts ops x, valid_tsb ts = true ->
+  exists st outs st' r, run core ts ops = Ok (st, outs) /\
+    py_step core ts st (OpSeek x) = Ok (st', r) /\
+    ((in_range ts x /\ r = RET_NONE /\ in_interval (fst st') x = true /\ snd st' = snd st) \/
+     (~ in_range ts x /\ r = RAISE_VALUE_ERROR /\ st' = st)).
+Proof. exact seek_total_proof. Qed.
 
-(* F4 (witness): such a state exists — "seek always lands / returns" is refuted for NaN. *)
-Theorem seek_nan_diverges_refuted :
-  exists ts ops st outs, valid_tsb ts = true /\ Forall finite_op ops /\
-    run core ts ops = Ok (st, outs) /\ t_index (fst st) = 0 /\
-    forall fuel, py_step_fuel fuel core ts st (OpSeek NaN) = Fuel.
-Proof. exact seek_nan_diverges_refuted_proof. Qed.
-
-(* F4 (second facet): from the null state seek(NaN) is accepted and lands on tree 0. *)
-Theorem seek_nan_accepted_refuted :
-  exists ts st', valid_tsb ts = true /\
-    py_step core ts (init_state ts) (OpSeek NaN) = Ok (st', RET_NONE) /\ t_index (fst st') = 0.
-Proof. exact seek_nan_accepted_refuted_proof. Qed.
-
-(* F14: history independence of the site list is refuted (first(); clear() keeps tree 0's sites). *)
-Theorem nav_sites_refuted :
-  exists ts ops st outs, valid_tsb ts = true /\ Forall finite_op ops /\
-    run core ts ops = Ok (st, outs) /\ t_index (fst st) = -1 /\
-    t_sites (fst st) <> t_sites (tree_init ts).
-Proof. exact nav_sites_refuted_proof. Qed.
-
-(* F15: history independence of tracked-sample counts is refuted (internal sample node). *)
-Theorem nav_tracked_refuted :
-  exists ts ops st outs fr outs', valid_tsb ts = true /\ Forall finite_op ops /\
-    run full ts ops = Ok (st, outs) /\
-    run full ts (fresh_ops (t_index (fst st))) = Ok (fr, outs') /\
-    t_index (fst st) = t_index (fst fr) /\ t_tracked (fst st) <> t_tracked (fst fr).
-Proof. exact nav_tracked_refuted_proof. Qed.
+Theorem ll_seek_total : forall ts ops x, valid_tsb ts = true ->
+  exists st outs st' r, run core ts ops = Ok (st, outs) /\
+    py_step core ts st (OpLLSeek x) = Ok (st', r) /\
+    ((in_range ts x /\ r = RET_NONE /\ in_interval (fst st') x = true /\ snd st' = snd st) \/
+     (~ in_range ts x /\ r = RAISE_LIBRARY_ERROR /\ st' = st)).
+Proof. exact ll_seek_total_proof. Qed.
